@@ -5,6 +5,7 @@ import Abyss.Render
 import Abyss.Check
 import Abyss.Open
 import Abyss.Parse
+import Abyss.RaBuf
 /-!
 # Line-protocol driver of the executable model (no Mathlib; built as `abyss-driver`)
 One request per input line, one answer line per request. See harness/src/proto.rs.
@@ -230,6 +231,190 @@ def genLine (args : List String) : String :=
     | none => "bad"
   | _ => "bad"
 
+
+/-!
+## RaBuf section: the model of `rabuf::BufFile` (Abyss/RaBuf.lean) behind the line protocol
+
+One buffer at a time; the driver keeps its state, the fault schedule and the write-attempt counter.
+Every command starts with `rb`.  `<bytes>` is `-` (empty), `x<hex>`, `z<n>` (n zero bytes) or
+`p<len>:<seed>` (pattern bytes, `patBytes`).  Answers: `ok …`, `err io` (a refused chunk write / a failed chunk load),
+`err hang` (the real call would never return; the buffer is then dead: every later command except
+`state`/`sum`/`logical` answers `err dead`), `err closed` (after `drop`), `err nobuf`, `bad-op`.
+
+  rb cap <cs> <max> <bytes>        with_capacity over a file with these bytes   -> ok <end> <max>
+  rb pm <cs> <permille> <bytes>    with_per_mille                               -> ok <end> <max>
+  rb new <bytes>                   new (= pm 4096 20)                           -> ok <end> <max>
+  rb reopen cap <cs> <max>         drop (flush, result ignored), then with_capacity over the disk -> ok <end> <max>
+  rb reopen pm <cs> <permille>     likewise with_per_mille                      -> ok <end> <max>
+  rb seek <off>                    seek(Start off)                              -> ok <pos>
+  rb seekend [<x>]                 seek(End x), x an integer, default 0; both signs go back -> ok <pos>
+  rb seekcur <±n>                  seek(Current n)                              -> ok <pos>
+  rb setlen <n>                    FileSetLen::set_len                          -> ok
+  rb read <n>                      one Read::read into n bytes                  -> ok <hex of the bytes returned>
+  rb readexact <n>                 read_exact                                   -> ok <hex> | err io
+  rb readsmall <n>                 SmallRead fast paths for an n-byte item      -> ok <hex> | err io
+  rb write <bytes>                 one Write::write                             -> ok <count>
+  rb writeall <bytes>              write_all                                    -> ok
+  rb writesmall <bytes>            SmallWrite fast paths                        -> ok
+  rb prepare <off>                 prepare(off)                                 -> ok
+  rb flush                         Write::flush                                 -> ok | err io
+  rb clear                         clear (flush, keep only chunk 0)             -> ok | err io
+  rb fill                          read_fill_buffer                             -> ok
+  rb drop                          Drop (flush, result ignored)                 -> ok
+  rb faults <i1,i2,…|-> <prefix>   the write attempts number counter+i1, counter+i2, … (0 = the next one)
+                                   will be refused; <prefix> bytes of a refused write reach the disk -> ok
+  rb state   -> pos=<n> end=<n> max=<n> k=<counter> chunks=<off:dirty(0|1),… sorted by off> disk=<hex>
+  rb sum     -> pos=<n> end=<n> max=<n> k=<counter> ev=<operations that evicted so far> nchunks=<n> ndirty=<n> has0=<0|1> dlen=<n> dsum=<checksum of the disk>
+  rb logical -> ok <hex of St.logical>
+(every fallible command can also answer `err io` / `err hang`)
+-/
+structure Rb where
+  st : Option RaBuf.St := none
+  k : Nat := 0
+  fails : List Nat := []
+  pfx : Nat := 0
+  dead : Bool := false
+  closed : Bool := false
+  /-- how many operations (other than clear / reopen) made a resident chunk non-resident -/
+  ev : Nat := 0
+
+def Rb.faults (r : Rb) : RaBuf.Faults := ⟨fun i => r.fails.contains i, fun _ => r.pfx⟩
+
+def rbBytes (tok : String) : Option (List Nat) :=
+  if tok == "-" then some []
+  else match tok.toList with
+    | 'z' :: rest => (String.ofList rest).toNat?.map RaBuf.zeros
+    | _ => parseBytes tok
+
+def rbChunks (s : RaBuf.St) : String :=
+  ",".intercalate ((RaBuf.sortOffs (s.chunks.map (·.off))).map fun o =>
+    match RaBuf.findChunk s.chunks o with
+    | some c => s!"{o}:{if c.dirty then 1 else 0}"
+    | none => s!"{o}:?")
+
+def rbEvicted (r : Rb) (new : RaBuf.St) : Nat :=
+  match r.st with
+  | some old => if old.chunks.any (fun c => (RaBuf.findChunk new.chunks c.off).isNone) then 1 else 0
+  | none => 0
+
+def rbOut {α : Type} (r : Rb) (o : RaBuf.Out α) (show_ : α → String) : Rb × String :=
+  let r := { r with ev := r.ev + rbEvicted r o.st }
+  match o with
+  | .ok s k a => ({ r with st := some s, k := k }, ("ok " ++ show_ a).trimAscii.toString)
+  | .err s k => ({ r with st := some s, k := k }, "err io")
+  | .hang s k => ({ r with st := some s, k := k, dead := true }, "err hang")
+
+def rbOk3 (r : Rb) (x : RaBuf.St × Nat × Bool) : Rb × String :=
+  ({ r with st := some x.1, k := x.2.1 }, if x.2.2 then "ok" else "err io")
+
+def rbOpen (r : Rb) (s : RaBuf.St) : Rb × String :=
+  ({ r with st := some s, dead := false, closed := false }, s!"ok {s.end_} {s.max}")
+
+def handleRb (r : Rb) (args : List String) : Rb × String :=
+  let φ := r.faults
+  match args with
+  | ["cap", cs, mx, b] =>
+    match cs.toNat?, mx.toNat?, rbBytes b with
+    | some cs, some mx, some b => if cs = 0 then (r, "bad-op") else rbOpen { r with k := 0, fails := [], pfx := 0, ev := 0 } (RaBuf.withCapacity cs mx b)
+    | _, _, _ => (r, "bad-op")
+  | ["pm", cs, pm, b] =>
+    match cs.toNat?, pm.toNat?, rbBytes b with
+    | some cs, some pm, some b => if cs = 0 then (r, "bad-op") else rbOpen { r with k := 0, fails := [], pfx := 0, ev := 0 } (RaBuf.withPerMille cs pm b)
+    | _, _, _ => (r, "bad-op")
+  | ["new", b] =>
+    match rbBytes b with
+    | some b => rbOpen { r with k := 0, fails := [], pfx := 0, ev := 0 } (RaBuf.new b)
+    | none => (r, "bad-op")
+  | _ =>
+  match r.st with
+  | none => (r, "err nobuf")
+  | some s =>
+  match args with
+  | ["state"] => (r, s!"pos={s.pos} end={s.end_} max={s.max} k={r.k} chunks={rbChunks s} disk={hexOf s.disk}")
+  | ["sum"] =>
+    let nd := (s.chunks.filter (·.dirty)).length
+    let z := if (RaBuf.findChunk s.chunks 0).isSome then 1 else 0
+    (r, s!"pos={s.pos} end={s.end_} max={s.max} k={r.k} ev={r.ev} nchunks={s.chunks.length} ndirty={nd} has0={z} dlen={s.disk.length} dsum={checksum s.disk}")
+  | ["logical"] => (r, ("ok " ++ hexOf s.logical).trimAscii.toString)
+  | ["faults", l, p] =>
+    let idx : Option (List Nat) :=
+      if l == "-" then some []
+      else (l.splitOn ",").foldr (fun t acc => match t.toNat?, acc with | some n, some a => some (n :: a) | _, _ => none) (some [])
+    match idx, p.toNat? with
+    | some idx, some p => ({ r with fails := idx.map (· + r.k), pfx := p }, "ok")
+    | _, _ => (r, "bad-op")
+  | "reopen" :: rest =>
+    if r.dead then (r, "err dead") else
+    let (s1, k1) := if r.closed then (s, r.k) else RaBuf.drop_ φ s r.k
+    let r1 := { r with k := k1 }
+    match rest with
+    | ["cap", cs, mx] =>
+      match cs.toNat?, mx.toNat? with
+      | some cs, some mx => if cs = 0 then (r, "bad-op") else rbOpen r1 (RaBuf.withCapacity cs mx s1.disk)
+      | _, _ => (r, "bad-op")
+    | ["pm", cs, pm] =>
+      match cs.toNat?, pm.toNat? with
+      | some cs, some pm => if cs = 0 then (r, "bad-op") else rbOpen r1 (RaBuf.withPerMille cs pm s1.disk)
+      | _, _ => (r, "bad-op")
+    | _ => (r, "bad-op")
+  | _ =>
+  if r.dead then (r, "err dead") else
+  if r.closed then (r, "err closed") else
+  let pure_ := fun (s' : RaBuf.St) (ans : String) => ({ r with st := some s' }, ans)
+  match args with
+  | ["seek", x] =>
+    match x.toNat? with
+    | some x => let s' := RaBuf.seekStart s x; pure_ s' s!"ok {s'.pos}"
+    | none => (r, "bad-op")
+  | ["seekend"] => let s' := RaBuf.seekEnd0 s; pure_ s' s!"ok {s'.pos}"
+  | ["seekend", x] =>
+    match x.toInt? with
+    | some x => let s' := RaBuf.seekEnd s x.natAbs; pure_ s' s!"ok {s'.pos}"
+    | none => (r, "bad-op")
+  | ["seekcur", d] =>
+    match (if d.startsWith "+" then (d.drop 1).toString.toInt? else d.toInt?) with
+    | some d => let s' := RaBuf.seekCur s d; pure_ s' s!"ok {s'.pos}"
+    | none => (r, "bad-op")
+  | ["setlen", n] =>
+    match n.toNat? with
+    | some n => pure_ (RaBuf.setLen s n) "ok"
+    | none => (r, "bad-op")
+  | ["read", n] =>
+    match n.toNat? with
+    | some n => rbOut r (RaBuf.read φ s r.k n) hexOf
+    | none => (r, "bad-op")
+  | ["readexact", n] =>
+    match n.toNat? with
+    | some n => rbOut r (RaBuf.readExact φ s r.k n) hexOf
+    | none => (r, "bad-op")
+  | ["readsmall", n] =>
+    match n.toNat? with
+    | some n => rbOut r (RaBuf.readSmall φ s r.k n) hexOf
+    | none => (r, "bad-op")
+  | ["write", b] =>
+    match rbBytes b with
+    | some b => rbOut r (RaBuf.write φ s r.k b) toString
+    | none => (r, "bad-op")
+  | ["writeall", b] =>
+    match rbBytes b with
+    | some b => rbOut r (RaBuf.writeAll φ s r.k b) (fun _ => "")
+    | none => (r, "bad-op")
+  | ["writesmall", b] =>
+    match rbBytes b with
+    | some b => rbOut r (RaBuf.writeSmall φ s r.k b) (fun _ => "")
+    | none => (r, "bad-op")
+  | ["prepare", x] =>
+    match x.toNat? with
+    | some x => rbOut r (RaBuf.prepare φ s r.k x) (fun _ => "")
+    | none => (r, "bad-op")
+  | ["flush"] => rbOk3 r (RaBuf.flush φ s r.k)
+  | ["clear"] => rbOk3 r (RaBuf.clear φ s r.k)
+  | ["fill"] => rbOut r (RaBuf.readFillBuffer φ s r.k) (fun _ => "")
+  | ["drop"] =>
+    let (s', k') := RaBuf.drop_ φ s r.k
+    ({ r with st := some s', k := k', closed := true }, "ok")
+  | _ => (r, "bad-op")
+
 def handle (ms : Maps) (line : String) : IO (Maps × String) := do
   match line.trimAscii.toString.splitOn " " with
   | "gen" :: args => return (ms, genLine args)
@@ -318,13 +503,20 @@ def handle (ms : Maps) (line : String) : IO (Maps × String) := do
       | _, _ => return (ms, "bad-op")
   | _ => return (ms, "bad-op")
 
-partial def loop (h : IO.FS.Stream) (out : IO.FS.Stream) (ms : Maps) : IO Unit := do
+partial def loop (h : IO.FS.Stream) (out : IO.FS.Stream) (ms : Maps) (rb : Rb) : IO Unit := do
   let line ← h.getLine
   if line.isEmpty then return ()
-  let (ms', ans) ← handle ms line
-  out.putStrLn ans
-  out.flush
-  loop h out ms'
+  match line.trimAscii.toString.splitOn " " with
+  | "rb" :: args =>
+    let (rb', ans) := handleRb rb args
+    out.putStrLn ans
+    out.flush
+    loop h out ms rb'
+  | _ =>
+    let (ms', ans) ← handle ms line
+    out.putStrLn ans
+    out.flush
+    loop h out ms' rb
 
 def main : IO Unit := do
-  loop (← IO.getStdin) (← IO.getStdout) []
+  loop (← IO.getStdin) (← IO.getStdout) [] {}
